@@ -1490,6 +1490,9 @@ class Interp:
             return v        # an exception class stands for its instance: its type is the class itself
         if isinstance(v, (Rec, Opaque, Ref, PyModel, LambdaVal, BoundMethod)):
             raise Unmodelled(f'type() of {v!r}')
+        if isinstance(v, _PURE_TYPES):
+            mod_ = type(v).__module__.lstrip('_')
+            return Ref(f'ext:{mod_}.{type(v).__name__}')
         return Ref('builtin:NoneType' if v is None else f'builtin:{type(v).__name__}')
 
     def _class_refs(self, v):
@@ -2068,6 +2071,17 @@ def _global(self, gref, n):
     return val
 
 
+def _has_call_ref(v, depth=0):
+    """Does a folded container hold the folder's symbolic stand-in for the result of a library call (Ref('ext:f(...)'))?"""
+    if isinstance(v, Ref):
+        return '(' in v.ref
+    if depth < 4 and isinstance(v, dict):
+        return any(_has_call_ref(k, depth + 1) or _has_call_ref(x, depth + 1) for k, x in v.items())
+    if depth < 4 and isinstance(v, (list, tuple, set, frozenset)):
+        return any(_has_call_ref(x, depth + 1) for x in v)
+    return False
+
+
 def _immutable(v, depth=0):
     if v is None or isinstance(v, (bool, int, float, str, bytes, Ref, TypingAlias, frozenset) + _PURE_TYPES[:6]):
         return True
@@ -2104,6 +2118,8 @@ def _global_uncached(self, gref, n):
             pass
     try:
         val = self.a.folder.fold(n, self.m)
+        if isinstance(gnode_, (ast.Dict, ast.List, ast.Tuple, ast.Set)) and _has_call_ref(val):
+            raise Unfoldable('container holds results of library calls')
     except Unfoldable:
         val = None
         if isinstance(gnode_, (ast.Dict, ast.List, ast.Tuple, ast.Set)):
